@@ -343,6 +343,48 @@ pub fn eval(case: &PrettyCase, want_sample: bool) -> PrettyOut {
 }
 
 // ------------------------------------------------------------------------------------------------
+// byte decoder (fuzzing)
+
+fn fuzz_lines(b: &mut std::slice::Iter<u8>) -> Vec<String> {
+    const ALPHA: &[&str] = &["a", "b", " ", "|", "`", "-", "\t", "ä", "x", "--", "|  ", ""];
+    let n = (*b.next().unwrap_or(&0) % 4) as usize + 1;
+    let mut v = Vec::new();
+    for k in 0..n {
+        let len = (*b.next().unwrap_or(&1) % 5) as usize;
+        let mut s = String::new();
+        for _ in 0..len {
+            s.push_str(ALPHA[(*b.next().unwrap_or(&0) as usize) % ALPHA.len()]);
+        }
+        if k + 1 == n && s.is_empty() {
+            s.push('z'); // precondition: the rendering is non-empty and does not end in a newline
+        }
+        v.push(s);
+    }
+    v
+}
+
+/// arbitrary bytes -> a document inside the property's input domain
+pub fn decode_bytes(data: &[u8]) -> Option<PrettyCase> {
+    let mut b = data.iter();
+    let mut nodes = Vec::new();
+    while let Some(&how) = b.next() {
+        if nodes.len() >= 24 {
+            break;
+        }
+        let pick = (*b.next().unwrap_or(&0) as u16) << 8;
+        let via = *b.next().unwrap_or(&0) % 3;
+        let chunk_seed = *b.next().unwrap_or(&0) as u64;
+        let text = [fuzz_lines(&mut b), fuzz_lines(&mut b), fuzz_lines(&mut b), fuzz_lines(&mut b)];
+        nodes.push(NodeSpec { how: how % 5, pick, via, doc: Doc { text, chunk_seed } });
+    }
+    if nodes.is_empty() {
+        None
+    } else {
+        Some(PrettyCase { nodes })
+    }
+}
+
+// ------------------------------------------------------------------------------------------------
 // engine
 
 pub struct PrettyStats {
